@@ -258,8 +258,16 @@ def standard_job(draw, nlive=(20, 200), resume_cycles=(0, 0),
     # checkpointing
     if iteration_checkpoints:
         kw["checkpointing"] = True
-        kw["checkpoint_on_iteration"] = True
-        kw["checkpoint_interval"] = draw(st.integers(1, kw["nlive"]))
+        if draw(st.integers(0, 3)) == 0:
+            # time-triggered with a zero interval: a checkpoint at every
+            # opportunity (every iteration boundary, and directly after a
+            # training with checkpoint_on_training)
+            kw["checkpoint_on_iteration"] = False
+            kw["checkpoint_interval"] = 0
+            labels.append("checkpoint:time-0")
+        else:
+            kw["checkpoint_on_iteration"] = True
+            kw["checkpoint_interval"] = draw(st.integers(1, kw["nlive"]))
     if allow_ckpt_on_training and draw(st.integers(0, 2)) == 0:
         kw["checkpoint_on_training"] = True
         labels.append("checkpoint_on_training")
